@@ -107,6 +107,20 @@ func (e *env) presence(pubHex string) string {
 
 func evKey(name string, items ...any) string { return fmt.Sprint(name, items) }
 
+// reannounce: fresh node information, or — one time in three for a listed node — exactly the bytes that are
+// stored already (nodes re-announce themselves every epoch; seeded change C07-6: an "unchanged, nothing to
+// write" shortcut that forgets the state)
+func (e *env) reannounce(ph string, pub []byte) []byte {
+	if c, ok := e.m.legacy[ph]; ok && e.b.Rng.IntN(3) == 0 {
+		e.b.Hit("re-announced-with-identical-information")
+		if c.state != 1 {
+			e.b.Hit("re-announced-with-identical-information-while-not-online")
+		}
+		return append([]byte{}, c.blob...)
+	}
+	return e.blob(pub)
+}
+
 func (e *env) genC07() *nmOp {
 	r := e.b.Rng
 	node := r.IntN(len(e.nodes))
@@ -116,7 +130,7 @@ func (e *env) genC07() *nmOp {
 	case k < 3: // addPeer
 		combo := e.pickCombo(6)
 		s, nw, aw, sd := e.nodeSigners(combo, node)
-		blob := e.blob(nk.pub)
+		blob := e.reannounce(ph, nk.pub)
 		short := r.IntN(8) == 0
 		if short {
 			blob = blob[:runner.Pick(r, []int{0, 2, 20, 34})]
@@ -136,7 +150,7 @@ func (e *env) genC07() *nmOp {
 	case k < 6: // addPeerIR
 		ac := e.pickAlpha(7)
 		s, aw, sd := e.alphaSigners(ac)
-		blob := e.blob(nk.pub)
+		blob := e.reannounce(ph, nk.pub)
 		short := r.IntN(8) == 0
 		if short {
 			blob = blob[:runner.Pick(r, []int{0, 2, 20, 34})]
